@@ -134,6 +134,15 @@ pub(super) struct Local {
 #[repr(align(4))]
 struct Handover(AtomicUsize);
 
+impl Local {
+    /// Is the next transaction going to wrap the generation around?
+    ///
+    /// Signals the caller that the node should be sent to a cooldown before starting it.
+    pub(super) fn wraps_next(&self) -> bool {
+        self.generation.get().wrapping_add(4) == 0
+    }
+}
+
 /// The slots for the helping strategy.
 pub(super) struct Slots {
     /// The control structure of the slot.
@@ -191,13 +200,11 @@ impl Slots {
         &self.slot
     }
 
-    pub(super) fn get_debt(&self, ptr: usize, local: &Local) -> (usize, bool) {
+    pub(super) fn get_debt(&self, ptr: usize, local: &Local) -> usize {
         // Incrementing by 4 ensures we always have enough space for 2 bit of tags.
         let gen = local.generation.get().wrapping_add(4);
         debug_assert_eq!(gen & GEN_TAG, 0);
         local.generation.set(gen);
-        // Signal the caller that the node should be sent to a cooldown.
-        let discard = gen == 0;
         let gen = gen | GEN_TAG;
         // We will sync by the write to the control. But we also sync the value of the previous
         // generation/released slot. That way we may re-confirm in the writer that the reader is
@@ -212,7 +219,7 @@ impl Slots {
         let prev = self.control.swap(gen, SeqCst);
         debug_assert_eq!(IDLE, prev, "Left control in wrong state");
 
-        (gen, discard)
+        gen
     }
 
     pub(super) fn help<R, T>(&self, who: &Self, storage_addr: usize, replacement: &R)
